@@ -26,6 +26,8 @@ cdB(x) == x * 10000                           \* centi-dB -> micro-dB
 
 Pad     == cdB(1000)                          \* Span.padding 10 dB
 PMax    == cdB(1200)                          \* p_max of the library models: 12 dBm (design power 10 dBm + offset 2)
+DLoad13 == 1139434                            \* 10 log10(13 / 10): the design band declared on a 37.5 GHz grid carries 13
+                                              \* channels where the SI grid (50 GHz) has 10 (profiles rich = 7)
 PMax2   == cdB(1220)                          \* a second, noisier auto-selectable model with 0.2 dB more power (profiles rich = 5)
 FlatX   == cdB(4300)                          \* gain_flatmax 40 dB + extension 3 dB: never binding
 FlatLow == cdB(1900)                          \* B1 only: an auto-selected model whose extended maximum gain binds
@@ -68,7 +70,7 @@ AmpOf(raw, rawNext, last, u, rich) ==
      pmax |-> PMax, pmaxSet |-> IF rich = 5 /\ ~u.var THEN {PMax, PMax2} ELSE {PMax}, flatx |-> IF rich = 2 /\ ~u.var THEN FlatLow ELSE FlatX, autoVoa |-> (rich = 1)]
 
 ProfilesOf(n, losses, rich) ==
-    {[ing |-> 0, tx |-> 0, dpref |-> 0, t0 |-> t0, rich |-> rich,
+    {[ing |-> 0, tx |-> 0, dpref |-> 0, dload |-> IF rich = 7 THEN DLoad13 ELSE 0, t0 |-> t0, rich |-> rich,
       amps |-> [k \in 1..(n + 1) |-> AmpOf(IF k = 1 THEN 0 ELSE ls[k - 1], IF k <= n THEN ls[k] ELSE 0, k = n + 1,
                                            us[k], rich)]] :
         t0 \in {0 - cdB(2000), 0 - cdB(1750)},
@@ -79,7 +81,7 @@ ProfilesOf(n, losses, rich) ==
 \* lines that start directly at a transceiver (no ROADM, hence no booster): transmit power 0 / -2 dBm, reference power of
 \* the design 0 / -1 dBm (dpref), amplifier k after span k
 TrxProfilesOf(n, losses) ==
-    {[ing |-> 1, tx |-> tx, dpref |-> dp, t0 |-> tx - dp, rich |-> 6,
+    {[ing |-> 1, tx |-> tx, dpref |-> dp, dload |-> 0, t0 |-> tx - dp, rich |-> 6,
       amps |-> [k \in 1..n |-> AmpOf(ls[k], IF k < n THEN ls[k + 1] ELSE 0, k = n, us[k], 6)]] :
         tx \in {0, 0 - cdB(200)}, dp \in {0, 0 - cdB(100)},
         ls \in [1..n -> losses],
@@ -88,6 +90,7 @@ TrxProfilesOf(n, losses) ==
 MCProfiles ==
     UNION {ProfilesOf(n, LossSet, 0) : n \in 1..MaxSpans}
       \cup (IF Rich THEN ProfilesOf(1, LossSet, 5)       \* two auto-selectable models of nearly equal p_max
+                          \cup ProfilesOf(1, LossSet, 7)    \* design band on its own channel grid (13 instead of 10 channels)
                           \cup TrxProfilesOf(1, LossSet) \cup TrxProfilesOf(2, {cdB(1430), cdB(2770)})
                           \cup ProfilesOf(1, MCLossesTie \cup {cdB(2000)}, 3)      \* rounding ties
                           \cup ProfilesOf(1, {cdB(2000), cdB(2770)}, 1)      \* automatic output VOA
@@ -99,7 +102,7 @@ MCVoaGrid == {cdB(50), cdB(150)}
 
 \* on the replayed grid the rule never ties, so the expectation emitted for B2 is unique
 NoTieOnGrid == \A k \in 1..Len(oms.amps) :
-                  (oms.rich \in {0, 1, 5, 6} /\ RuleApplies(cfg, oms.amps[k])) =>
+                  (oms.rich \in {0, 1, 5, 6, 7} /\ RuleApplies(cfg, oms.amps[k])) =>
                       Cardinality(RuleSet(cfg, oms.amps[k].nxt, oms.amps[k].Ln)) = 1
 
 \* emission for the spec -> code replay (B2): one JSON line per complete design of a replayable profile (rich 0, and
@@ -109,6 +112,6 @@ Spread == cfg.mode + cfg.slope \div 100 + cfg.lo \div 1000000 + oms.t0 \div 5000
           + SumSeq([k \in 1..Len(oms.amps) |-> oms.amps[k].L \div 10000 + 7 * k * oms.amps[k].kind])
 Selected == LET st == IF oms.rich # 0 THEN 3 * EmitStride1 ELSE IF Len(oms.amps) = 2 THEN EmitStride1 ELSE EmitStride2
             IN Spread % st = 0
-Emit == i < Len(oms.amps) \/ oms.rich \notin {0, 1, 5, 6} \/ ~Selected
+Emit == i < Len(oms.amps) \/ oms.rich \notin {0, 1, 5, 6, 7} \/ ~Selected
           \/ PrintT("@@" \o ToJson([cfg |-> cfg, oms |-> oms, out |-> out]))
 ==============================================================================
